@@ -1,6 +1,7 @@
 (** C12 — capture filters.  Property theorems only; proofs live in Proofs/. *)
 From Coq Require Import List ZArith Bool.
-From TR Require Import Lib.Bytes Bpf.Vm Spec.C12 Generated.BpfProgs Proofs.C12Exact.
+From TR Require Import Lib.Bytes Bpf.Vm Spec.C12 Generated.BpfProgs Proofs.C12Exact Wire.Decode Drv.Drivers Run.Drv.
+Import ListNotations.
 Open Scope Z_scope.
 
 (** The TCP-tuple filter accepts exactly IPv4 ICMP plus unfragmented IPv4 TCP
@@ -28,3 +29,22 @@ Theorem C12_programs_in_subset : forall s d sp dp,
   && is_some (decode_all (raw_tcp4 s d sp dp)) = true.
 Proof. intros. rewrite decode_static_ok, decode_tcp4_ok. reflexivity. Qed.
 Print Assumptions C12_programs_in_subset.
+
+(** Linking property "the filter accepts every frame the matcher turns into a hop": the full statement is
+      forall c st frame now t a r d, recv c st frame now = Hop t a r d ->
+        forall p, installed_filter c = Some p -> accepts p (ether frame) = true
+    It is FALSE of the faithful model, and of the code (known finding, DESIGN.md section 8 #10): an ICMPv6
+    time-exceeded behind a hop-by-hop extension header is turned into a hop by the ICMP (and UDP) matcher
+    while the 'icmp || icmp6' program rejects the frame.  The witness below is a frame the real driver
+    accepted and the real program rejected in the correspondence run; everything else the lab delivers
+    (the whole catalogue x perturbation lattice) satisfies the linking property on the implementation
+    (checked on every run, signature 6.1), which is not a proof: PARTIAL. *)
+Definition c12_witness_cfg : cfg := (mkCfg VIcmp 255 255 [32; 1; 13; 184; 0; 0; 0; 0; 0; 0; 0; 0; 0; 0; 0; 2] [32; 1; 13; 184; 0; 1; 0; 0; 0; 0; 0; 0; 0; 0; 0; 7] 0 0 false 65535 false 0 0 0 0 false 0 0).
+Definition c12_witness_frame : bytes := [96; 0; 0; 0; 0; 65; 0; 250; 32; 1; 13; 184; 0; 0; 0; 153; 0; 0; 0; 0; 0; 0; 0; 1; 32; 1; 13; 184; 0; 0; 0; 0; 0; 0; 0; 0; 0; 0; 0; 2; 58; 0; 5; 2; 0; 0; 1; 0; 3; 0; 5; 185; 0; 0; 0; 0; 96; 0; 0; 0; 0; 9; 58; 255; 32; 1; 13; 184; 0; 0; 0; 0; 0; 0; 0; 0; 0; 0; 0; 2; 32; 1; 13; 184; 0; 1; 0; 0; 0; 0; 0; 0; 0; 0; 0; 7; 128; 0; 36; 64; 255; 255; 0; 255; 255].
+
+Theorem C12_filter_complete_refuted :
+  let st := replay c12_witness_cfg [] [(255, 2777026, 0)] in
+  recv c12_witness_cfg st c12_witness_frame 1581310039 = Hop 255 [32; 1; 13; 184; 0; 0; 0; 153; 0; 0; 0; 0; 0; 0; 0; 1] 1578533013 false
+  /\ (exists p, installed_filter c12_witness_cfg = Some p /\ accepts p (ether c12_witness_frame) = false).
+Proof. split; [vm_compute; reflexivity|]. eexists. split; [reflexivity|]. vm_compute. reflexivity. Qed.
+Print Assumptions C12_filter_complete_refuted.
